@@ -295,3 +295,9 @@ def run(F, rep, tier):
         else:
             rep.violation(r4, "allowed-values:" + n.split("::")[-1], "%s returns the value without checking the allowed values" % n, "%s:%s" % (h["file"], h["line"]))
     rep.floor(r4, "simple-type evaluators", nav, 8)
+    # ---------------- premises: "conforms" is FeelType::is_conformant / coerced over Value::type_of; their structural rules (C16) are re-evaluated here,
+    # because a slip there changes which inputs and results pass the type check
+    from props import c16
+    expl = rep.explanation
+    c16.run(F, rep, tier)
+    rep.explanation = expl + " The structural rules of the conformance relation itself (R16.x, property C16) are re-evaluated as premises."
